@@ -193,6 +193,15 @@ def main(argv):
     if r["replay_kind"]:
       jobs_files.append(path)
   seen_known = {}
+  if tier == "quick":
+    # quick: replay natively one witness per finding; thorough: every obligation's witness
+    first = {}
+    for hit in known_hits:
+      first.setdefault(hit[2]["id"], hit)
+    rest = [h for h in known_hits if first[h[2]["id"]] is not h]
+    known_hits = list(first.values())
+  else:
+    rest = []
   for r, cname, k in known_hits:
     ob = r["case"] + "/" + cname
     path = os.path.join(VERIF, "replay", "known_" + slug(k["id"] + "@" + ob) + ".json")
